@@ -54,6 +54,17 @@ impl IOCtx {
             ))
         })?;
 
+        if output_path.file_name().is_none() || output_path.parent() != input_file.as_path().parent() {
+            // e.g. `..txtpp.md`: removing the extensions leaves `.`, and the output would land outside the directory
+            return Err(Report::new(Self::make_error_with_kind(
+                input_path.clone(),
+                PpErrorKind::OpenFile,
+            ))
+            .attach_printable(format!(
+                "cannot derive an output file name beside input file `{input_path}`"
+            )));
+        }
+
         if output_path.is_txtpp_file() {
             // the output would itself be a txtpp source (e.g. `foo.txtpp.txtpp`)
             return Err(Report::new(Self::make_error_with_kind(
